@@ -232,19 +232,19 @@ EXTRA = {
     "C11": " Counted terminals carry their Python class (Coefficient/Constant subclasses are numbered with their base class); integrals carry intersect measures on further meshes (new universe xm; mutations of the extra measure's type, mesh, presence).",
     "C12": " Also: placement histories that put a digit boundary inside the objects of several counters at once (constants crosswise on two meshes), coefficients on mixed spaces over a MeshSequence and their fixed components. Placed families 'domains' (three meshes, two of them not integration domains) and 'contraction' (subscripts that sum several indices, grad, dx): TLC proves SigInvariant per family and every behaviour is replayed.",
     "C13": " Also: scalar-literal constructor calls (IntValue/FloatValue/ComplexValue/as_ufl x int, bool, numpy integer, float, numpy float, complex, numpy complex x the flyweight cache of IntValue as state), including purely imaginary numbers with signed zero real part. Round trips (pickle protocols, copy, deepcopy, eval(repr)) are actions of the literal mode with the flyweights of Zero and MultiIndex as state: a round trip must leave every other object, the shared flyweights included, as it was.",
-    "C16": " Also: transparent wrappers (variable, conj, real, imag, neg, indexed, index sums) over sums of terms of different arity.",
+    "C16": " Also: transparent wrappers (variable, conj, real, imag, neg, indexed, index sums) over sums of terms of different arity. energy_norm without a coefficient is a second entry point: exactly one new coefficient, and with it identified with w the same functional as energy_norm(a, w).",
     "C17": " Also: five mesh kinds (affine, P2, affine manifold, P2 manifold, broken coordinates): the two facet-normal values are opposite exactly on affine H1 meshes with gdim = tdim and independent elsewhere; cell normals and reference normals. Measures over several domains (ds/dx with intersecting dS of another mesh, dS with a second dS or ds): FormData's propagation guard and per-domain default restrictions as coded, one-sided domains where a restriction has no meaning.",
     "C18": " Also: symmetric elements with vector/tensor valued, Piola mapped or mixed sub-elements of different degrees, symmetric elements inside mixed elements and vice versa. Form operations as root terms: derivative with respect to a tuple of coefficients (the mixed element built by derivative()) and shape derivatives (coordinate_derivative with the direction's degree), estimated through compute_form_data.",
-    "C19": " Also: DAGTraverser rules with keyword context (different subsets of keywords on different paths, one traverser reused across roots, shared caches): the memo key must be (node, full ordered context); the same rule tables run through MultiFunction + map_expr_dag per context. The handler NAME is part of the model (declarative CamelCase -> snake_case rule checked equal to the coded loop for all names over a small alphabet and every registered name); handler tables are sets of attribute names, types registered late (digits, runs of capitals) are observed in a child interpreter, and the 24 MultiFunction/Transformer tables defined in ufl are further cases.",
+    "C19": " Also: DAGTraverser rules with keyword context (different subsets of keywords on different paths, one traverser reused across roots, shared caches): the memo key must be (node, full ordered context); the same rule tables run through MultiFunction + map_expr_dag per context. The handler NAME is part of the model (declarative CamelCase -> snake_case rule checked equal to the coded loop for all names over a small alphabet and every registered name); handler tables are sets of attribute names, types registered late (digits, runs of capitals) are observed in a child interpreter, and the 24 MultiFunction/Transformer tables defined in ufl are further cases. A handler table that cannot be constructed counts as binding every type wrongly.",
     "C22": " Also: mixed elements whose sub-elements have reference size != physical size (symmetric tensors, Piola vectors on an immersed mesh) in non-last position, with replace_argument True and False. Restrictions and interior facets: value vectors of a facet macro element ('+' traces then '-' traces), x('+') / x('-') constructors, dS integrals, jumps and averages of sub-functions through extract_blocks.",
     "C28": " Also: weighted sums w1*x + w2*y + w3*z with pairwise different non-unit weights over components of different kinds (Form, Action, Cofunction, Matrix-Action, ...) in every order, followed by derivative / action / adjoint / replace, with histories in which components vanish under the operation (all eight vanishing patterns); TLC checks D(w1A+w2B+w3C) = w1DA+w2DB+w3DC on the model. The numbers 0, 0.0 and Zero() as operands of + and - (B+0, 0+B, B-0 denote B; 0-B denotes -B), in-place r -= B, A @ f / A * f / A(B) notations.",
-    "C24": " Also: an index label re-used in nested scopes (a closed inner sum over i inside a summand summed over i).",
+    "C24": " Also: an index label re-used in nested scopes (a closed inner sum over i inside a summand summed over i). 4x4 matrices (the recursive cofactor expansion behind det/cofac/inv).",
     "C08": " Symmetric elements are modelled as declared (ordered dictionaries from block components to sub-elements, any block shape); TLC proves that the declaration order is irrelevant.",
     "C14": " Arguments are identified by (number, part): rank-3 forms with a third argument (complex mode: conjugation discipline for every number above 0) and block arguments with parts (products of two parts of one number are quadratic).",
-    "C23": " Conditionals at or below a compared operand, classified by the coded types of condition and both values (every class required by a vacuity guard).",
-    "C21": " Also: images that are numbers or zero tensors, and shape-changing maps of equal rank (2 -> 3, 2x3 -> 3x2). replace applied to unexpanded Gateaux derivatives with images that contain the differentiation variable.",
+    "C23": " Conditionals at or below a compared operand, classified by the coded types of condition and both values (every class required by a vacuity guard). Comparisons, min/max and sign BELOW the type-changing wrappers abs/real/imag/conj/sqrt (the wrapper's handler types the result; the operands must still be visited).",
+    "C21": " Also: images that are numbers or zero tensors, and shape-changing maps of equal rank (2 -> 3, 2x3 -> 3x2). replace applied to unexpanded Gateaux derivatives with images that contain the differentiation variable. Two replace actions in one program (the result of a replace recombined with the original and replaced again: variables that share a label but wrap different expressions), with second-level environments p(q(e)).",
     "C25": " Universes with directional spaces of several dimensions at once (related only through an isotropic space between them).",
-    "C27": " Form histories include a FormSum of cofunctions, 1.0*a and measures reconfigured with the user's metadata dicts plus degree=/scheme=. Forms that differ only in an argument slot of a nested external operator (eq/equals must not re-point operands); list-valued metadata entries.",
+    "C27": " Form histories include a FormSum of cofunctions, 1.0*a and measures reconfigured with the user's metadata dicts plus degree=/scheme=. Forms that differ only in an argument slot of a nested external operator (eq/equals must not re-point operands); list-valued metadata entries. Base-form snapshots include components, operands and coefficients (a later sum must not append to an earlier FormSum's component list).",
     "C29": " When the code departs from the transcription the order laws are judged on the real comparator over the universe (tie vs equality, antisymmetry, transitivity); a third conformance pass shares sub-objects within each term only.",
 }
 
